@@ -12,6 +12,9 @@ type Report struct {
 	Capped      bool
 	Terminals   []*Terminal
 	InitEvents  []Event
+	// Reactive: OR of State.Reactive over all explored states (which honest reactive broadcasts
+	// occurred anywhere): tells the caller which Config.Net variants differ from this one
+	Reactive int
 }
 
 type Terminal struct {
@@ -106,6 +109,7 @@ func ExploreBounded(cfg *Config, script Script, maxStates int, reorderBound int,
 					break
 				}
 				nx, evs := it.s.Apply(t)
+				rep.Reactive |= nx.Reactive
 				rep.Transitions++
 				if mon != nil {
 					id := it.v.id
@@ -183,6 +187,7 @@ func exploreAll(cfg *Config, script Script, maxStates int, mon Monitor) (*Report
 		}
 		for _, t := range en {
 			nx, evs := it.s.Apply(t)
+			rep.Reactive |= nx.Reactive
 			rep.Transitions++
 			if mon != nil {
 				id := it.id
